@@ -75,9 +75,12 @@ def run_case(case, ctx):
         ltr = [int(v) for v in rng.integers(lo, nt + 1, size=max(ni, 8))]
         ltr[0], ltr[1] = nt, lo
         lte = [int(v) for v in rng.integers(lo, nt + 1, size=ni)]
-    integer = bool(case.get("integer"))
-    Xtr, ytr, _ = pzoo.make_panel(rng, max(ni, 8), nc, nt, cells=case["cells"], positive=pos, plateaus=name == "plateau", lengths=ltr, integer=integer)
-    X, ycls, A = pzoo.make_panel(rng, ni, nc, nt, cells=case["cells"], positive=pos, plateaus=name == "plateau", lengths=lte, integer=integer)
+    integer = ("int16" if case["dseed"] % 2 else True) if case.get("integer") else False
+    cidx = ["default", "default", "one-based", "offset"][case["dseed"] % 4] if case["cells"] == "S" else "default"
+    if cidx != "default":
+        ctx.tag("series-cells-with-own-index:" + cidx)
+    Xtr, ytr, _ = pzoo.make_panel(rng, max(ni, 8), nc, nt, cells=case["cells"], positive=pos, plateaus=name == "plateau", lengths=ltr, integer=integer, cell_index=cidx)
+    X, ycls, A = pzoo.make_panel(rng, ni, nc, nt, cells=case["cells"], positive=pos, plateaus=name == "plateau", lengths=lte, integer=integer, cell_index=cidx)
     if integer:
         ctx.tag("integer-panel")
     if A is not None and case.get("layout", "C") != "C":
@@ -95,6 +98,11 @@ def run_case(case, ctx):
     except Exception as e:  # noqa
         if variant:
             ctx.tag("option-variant-rejected-at-fit:%s:%s:%s" % (name, variant.split("=")[0], type(e).__name__))
+            return
+        if integer == "int16":
+            # int16 arithmetic overflows inside the dictionary-based estimators (negative variances -> math domain error): a robustness
+            # problem of its own, outside what this property states; recorded, not judged
+            ctx.tag("narrow-integer-panel-refused-at-fit:%s:%s" % (name, type(e).__name__))
             return
         from vmon.core import env_signature, exc_sig
         env = env_signature(e)
@@ -114,12 +122,13 @@ def run_case(case, ctx):
         except Exception:  # noqa
             pass
     for fname, f in _apply_fns(name, est).items():
-        if variant:
-            # an option value the estimator only validates when it is applied
+        if variant or integer == "int16":
+            # an option value the estimator only validates when it is applied / int16 arithmetic overflowing inside the estimator
             try:
                 f(X)
             except Exception as e:  # noqa
-                ctx.tag("option-variant-rejected-at-apply:%s:%s:%s" % (name, variant.split("=")[0], type(e).__name__))
+                ctx.tag(("option-variant-rejected-at-apply:%s:%s:%s" % (name, variant.split("=")[0], type(e).__name__)) if variant else
+                        ("narrow-integer-panel-refused-at-apply:%s:%s" % (name, type(e).__name__)))
                 return
         ok, base = ctx.call("apply:exception:%s:%s" % (name, fname), f, X)
         if not ok:
@@ -184,7 +193,7 @@ def run_case(case, ctx):
     if variant:
         k_, v_ = variant.split("=", 1)
         est2.set_params(**{k_: est.get_params(deep=False)[k_]})
-    Atr = np.array([[np.asarray(Xtr.iloc[i, j], dtype=float) for j in range(nc)] for i in range(len(Xtr))])
+    Atr = np.array([[np.asarray(Xtr.iloc[i, j]) for j in range(nc)] for i in range(len(Xtr))])        # same values, same dtype
     try:
         est2.fit(Atr, yfit) if (name in pzoo.CLASSIFIERS or name in pzoo.REGRESSORS or name in pzoo.SUPERVISED_T) else est2.fit(Atr)
     except Exception as e:  # noqa
